@@ -478,6 +478,29 @@ static void emitCall(const CallBase& CB, FnCtx& C, const Function& F)
       else os << "  VP_COVER_AT(" << id << ");\n";
       return;
    }
+   if(callee && callee->isDeclaration() && (callee->getName() == "malloc" || callee->getName() == "realloc" || callee->getName() == "_Znwm" || callee->getName() == "_Znam"))
+   {
+      // typed allocation: if the result is cast to T*, allocate an array of T so that CBMC keeps the object field-sensitive
+      Type* ET = nullptr;
+      for(const User* U : CB.users())
+         if(auto* BC = dyn_cast<BitCastInst>(U))
+         {
+            Type* E = BC->getType()->getPointerElementType();
+            if(E->isSized() && !E->isIntegerTy(8) && !E->isFunctionTy() && DL->getTypeAllocSize(E) > 0) { ET = E; break; }
+         }
+      if(ET)
+      {
+         bool isRe = callee->getName() == "realloc";
+         string sz = arg(isRe ? 1 : 0);
+         os << "#ifdef __CPROVER__\n";
+         if(isRe) os << "  " << lhs << "VP_REALLOC_T(" << cty(ET) << ", " << arg(0) << ", " << sz << ");\n";
+         else os << "  " << lhs << "VP_MALLOC_T(" << cty(ET) << ", " << sz << ");\n";
+         os << "#else\n";
+         os << "  " << lhs << gName[callee] << "(" << (isRe ? arg(0) + ", " : string("")) << sz << ");\n";
+         os << "#endif\n";
+         return;
+      }
+   }
    string fexpr;
    FunctionType* FT = CB.getFunctionType();
    if(callee) fexpr = gName[callee];
